@@ -14,7 +14,12 @@ ASSUME = [
 PFX = {"C03"}
 
 
+EXPL = "C03.outsideTouched/explainedByEntryBelowRejectedDirectory"
+
+
 def _sig(evs, clauses):
+    if set(clauses) <= {EXPL}:
+        return "filter:entry-below-rejected-directory-written-through-preexisting-symlink"
     return None
 
 
